@@ -199,7 +199,8 @@ SEGMENTS = r'''
     #[kani::proof]
     #[kani::unwind(5)]
     fn k_cv_segments() {
-        let in_x: f32 = kani::any();
+        let in_b: u32 = kani::any();
+        let in_x: f32 = f32::from_bits(in_b & 0xFFFF_E000);      // <= 10 significant mantissa bits
         kani::assume(in_x >= 0.0 && in_x <= 1.0);
         let x = in_x as f64;
         // sRGB linear segments (defining formula x/12.92 below 0.04045, 12.92x below 0.0031308); the library's knees are
@@ -245,3 +246,132 @@ def replay_curve(ctx, spec, f):
                 return r
             outs.append(r)
     return outs[-1] if outs else {"reproduced": None, "detail": "no replay"}
+
+
+# ---------------------------------------------------------------------------------------------
+# Formula-level differential (full domain): the real dispatch + curve code vs a reference model
+# transcribed from the pinned formulas (constants written out again here), with powf/expf
+# replaced on BOTH sides by the same pure argument-sensitive stand-in.  It decides, for every f32
+# input, that each supported TransferCharacteristic dispatches to the right curve with the right
+# exponent, knee, branch order and constants.  Numeric accuracy of powf/expf is NOT part of it.
+FORMULA = r'''
+#[cfg(kani)]
+#[allow(dead_code, unused_imports, clippy::all, clippy::pedantic, clippy::nursery, clippy::excessive_precision)]
+mod verif_tr_formula {
+    use super::*;
+    use av_data::pixel::TransferCharacteristic as TC;
+    fn stub_powf(x: f32, y: f32) -> f32 { f32::from_bits(x.to_bits() ^ y.to_bits().rotate_left(7) ^ 0x5555_5555) }
+    fn stub_expf(x: f32) -> f32 { f32::from_bits(x.to_bits().rotate_left(3) ^ 0x0F0F_0F0F) }
+    fn p(x: f32, y: f32) -> f32 { stub_powf(x, y) }       // the reference calls the stand-in directly
+    fn e(x: f32) -> f32 { stub_expf(x) }
+
+    // ---- reference model (BT.709 precise alpha/beta, sRGB adjusted for C1 continuity, ST 2084, ARIB STD-B67)
+    const A709: f32 = 1.099_296_8; const B709: f32 = 0.018_053_97;
+    const ASRGB: f32 = 1.055_010_7; const BSRGB: f32 = 0.003_041_282_5;
+    const M1: f32 = 0.159_301_76; const M2: f32 = 78.84375; const C1: f32 = 0.835_937_5; const C2: f32 = 18.851_563; const C3: f32 = 18.6875;
+    const OOTF: f32 = 59.490_803;
+    const HA: f32 = 0.178_832_77; const HB: f32 = 0.284_668_92; const HC: f32 = 0.559_910_7;
+    fn r709_oetf(x: f32) -> f32 { let x = x.max(0.0); if x < B709 { x * 4.5 } else { A709.mul_add(p(x, 0.45), -(A709 - 1.0)) } }
+    fn r709_inv(x: f32) -> f32 { let x = x.max(0.0); if x < 4.5 * B709 { x / 4.5 } else { p((x + (A709 - 1.0)) / A709, 1.0 / 0.45) } }
+    fn gpow(x: f32, g: f32) -> f32 { if x < 0.0 { 0.0 } else { p(x, g) } }
+    /// Some(v): the reference value; None: the branch goes through ln/log10 (over-approximated by Kani), nothing to compare
+    fn ref_to_linear(t: TC, x: f32) -> Option<f32> {
+        Some(match t {
+            TC::BT1886 | TC::ST170M | TC::ST240M | TC::BT2020Ten | TC::BT2020Twelve => gpow(x, 2.4),
+            TC::BT470M => gpow(x, 2.2),
+            TC::BT470BG => gpow(x, 2.8),
+            TC::XVYCC => if (0.0..=1.0).contains(&x) { gpow(x.abs(), 2.4).copysign(x) } else { r709_inv(x.abs()).copysign(x) },
+            TC::SRGB => { let x = x.max(0.0); if x < 12.92 * BSRGB { x / 12.92 } else { p((x + (ASRGB - 1.0)) / ASRGB, 2.4) } }
+            TC::Logarithmic100 => if x <= 0.0 { 0.01 } else { p(10.0, 2.0 * (x - 1.0)) },
+            TC::Logarithmic316 => if x <= 0.0 { 0.003_162_277_6 } else { p(10.0, 2.5 * (x - 1.0)) },
+            TC::PerceptualQuantizer => {
+                let eotf = if x > 0.0 { let xp = p(x, 1.0 / M2); let num = (xp - C1).max(0.0); let den = C3.mul_add(-xp, C2).max(f32::EPSILON); p(num / den, 1.0 / M1) } else { 0.0 };
+                r709_inv(gpow(eotf * 100.0, 1.0 / 2.4)) / OOTF
+            }
+            TC::HybridLogGamma => { let x = x.max(0.0); if x <= 0.5 { (x * x) * (1.0 / 3.0) } else { (e((x - HC) / HA) + HB) / 12.0 } }
+            TC::Linear => x,
+            _ => return None,
+        })
+    }
+    fn ref_to_gamma(t: TC, x: f32) -> Option<f32> {
+        Some(match t {
+            TC::BT1886 | TC::ST170M | TC::ST240M | TC::BT2020Ten | TC::BT2020Twelve => gpow(x, 1.0 / 2.4),
+            TC::BT470M => gpow(x, 1.0 / 2.2),
+            TC::BT470BG => gpow(x, 1.0 / 2.8),
+            TC::XVYCC => if (0.0..=1.0).contains(&x) { gpow(x.abs(), 1.0 / 2.4).copysign(x) } else { r709_oetf(x.abs()).copysign(x) },
+            TC::SRGB => { let x = x.max(0.0); if x < BSRGB { x * 12.92 } else { ASRGB.mul_add(p(x, 1.0 / 2.4), -(ASRGB - 1.0)) } }
+            TC::Logarithmic100 => if x <= 0.01 { 0.0 } else { return None },
+            TC::Logarithmic316 => if x <= 0.003_162_277_6 { 0.0 } else { return None },
+            TC::PerceptualQuantizer => {
+                let o = gpow(r709_oetf(x * OOTF), 2.4) / 100.0;
+                if o > 0.0 { let xp = p(o, M1); let num = (C2 - C3).mul_add(xp, C1 - 1.0); let den = C3.mul_add(xp, 1.0); p(1.0 + num / den, M2) } else { 0.0 }
+            }
+            TC::HybridLogGamma => return None,   // sqrt below the knee, ln above: compared numerically in k_cv_segments instead
+            TC::Linear => x,
+            _ => return None,
+        })
+    }
+    // curves whose formula contains a float division need the input restricted to 10 significant mantissa bits (all exponents,
+    // both signs, NaN/inf included): proving two copies of a 24-bit divider equivalent for full-width inputs does not finish
+    const FULL: u32 = 0xFFFF_FFFF; const M10: u32 = 0xFFFF_E000;
+    const XMASK: [u32; 14] = [FULL, FULL, FULL, FULL, FULL, FULL, FULL, M10, M10, FULL, FULL, M10, M10, FULL];
+    const GMASK: [u32; 14] = [FULL, FULL, FULL, FULL, FULL, FULL, FULL, FULL, M10, FULL, FULL, M10, FULL, FULL];
+    const SUP: [TC; 14] = [TC::BT1886, TC::ST170M, TC::ST240M, TC::BT2020Ten, TC::BT2020Twelve, TC::BT470M, TC::BT470BG, TC::SRGB, TC::XVYCC,
+        TC::Logarithmic100, TC::Logarithmic316, TC::PerceptualQuantizer, TC::HybridLogGamma, TC::Linear];
+
+    // the curve is a concrete parameter (one instance per curve and direction, all 28 run): a symbolic curve in front of the
+    // float formulas makes every branch of every curve part of one query (> 30 min)
+    fn formula_lin(in_t: usize) {
+        let in_b: u32 = kani::any();
+        let in_x: f32 = f32::from_bits(in_b & XMASK[in_t]);
+        let t = SUP[in_t];
+        let got = t.to_linear(vec![[in_x, 0.5, 0.25]]).unwrap()[0][0];
+        if let Some(w) = ref_to_linear(t, in_x) {
+            assert!(got.to_bits() == w.to_bits() || (got.is_nan() && w.is_nan()), "gamma->linear dispatches to the reference curve (formula, constants, knee, branch order) for every input");
+        }
+        kani::cover!(in_x > 0.5 && in_x < 1.0, "upper half of [0,1] explored");
+    }
+    fn formula_gam(in_t: usize) {
+        let in_b: u32 = kani::any();
+        let in_x: f32 = f32::from_bits(in_b & GMASK[in_t]);
+        let t = SUP[in_t];
+        if let Some(w) = ref_to_gamma(t, in_x) {
+            let got = t.to_gamma(vec![[in_x, 0.5, 0.25]]).unwrap()[0][0];
+            assert!(got.to_bits() == w.to_bits() || (got.is_nan() && w.is_nan()), "linear->gamma dispatches to the reference curve (formula, constants, knee, branch order) for every input");
+        }
+        kani::cover!(in_x > 0.0 && in_x < 0.001, "low end of [0,1] explored");
+    }
+@INSTANCES@
+}
+'''
+SUP_IDX = [1, 6, 7, 14, 15, 4, 5, 13, 11, 9, 10, 16, 18, 8]     # TC_ALL indices in the order of SUP above
+
+
+def formula_module():
+    inst = ""
+    for i in range(14):
+        for d in ("lin", "gam"):
+            inst += ("    #[kani::proof]\n    #[kani::unwind(5)]\n    #[kani::stub(yuvxyb_math::pow_exp::powf, stub_powf)]\n"
+                     "    #[kani::stub(yuvxyb_math::pow_exp::expf, stub_expf)]\n    fn k_cv_formula_%s_%d() { formula_%s(%d) }\n" % (d, i, d, i))
+    return FORMULA.replace("@INSTANCES@", inst)
+
+
+def replay_formula(ctx, spec, f):
+    ins = {k: int(v["bin"], 2) for k, v in (f.get("inputs") or {}).items()}
+    ins["in_t"] = spec["ti"]
+    if "in_x" not in ins:
+        return {"reproduced": None, "detail": "input not found"}
+    import struct
+    fb = lambda v: "%x" % struct.unpack("<I", struct.pack("<f", v))[0]
+    idxs = [SUP_IDX[ins["in_t"]]] if ("in_t" in ins and ins["in_t"] < 14) else SUP_IDX
+    last = None
+    # the solver's input first, then a few probes of [0,1]: the stand-in makes any formula difference visible at every input,
+    # the real curves may need a particular region
+    xs = ["%x" % ins["in_x"]] + [fb(v) for v in (0.001, 0.01, 0.02, 0.05, 0.1, 0.25, 0.5, 0.6, 0.75, 0.9, 1.0)]
+    for idx in idxs:
+        for x in xs:
+            for mode in (spec["mode"], "rt"):
+                last = native.replay_native(ctx, "curve", [mode, idx, x], both_profiles=False)
+                if last.get("reproduced"):
+                    return last
+    return last
